@@ -4,7 +4,7 @@ From VT Require Import Model.MVT Proofs.MVTProofs Gen.Constants.
 Import ListNotations.
 Local Open Scope N_scope.
 
-Lemma C11_gen_relations : mvt_table_variant = 1 /\ zigzag_variant = 1.  Proof. split; reflexivity. Qed.
+Lemma C11_gen_relations : mvt_table_variant = 1 /\ zigzag_variant = 1 /\ geovalue_eq_variant = 1.  Proof. repeat split; reflexivity. Qed.
 
 (* reading a layer keeps its key/value tables exactly as stored (duplicates, unused entries), so
    every tag id keeps its meaning *)
